@@ -519,6 +519,14 @@ def check_caches(run, modules, rule, functions=None, prog=None):
                                  "%s declares '%s' as a C float: every value of the package is a double, so a quantity held in this variable is "
                                  "rounded to 24 bits and overflows to infinity above 3.4e38 (sums of squares of photon rates do), which changes "
                                  "results and convergence tests for inputs the double-precision code handles" % (name, nm_))
+            from .rules._purity import truncated_near_integer
+            for c_, q_ in truncated_near_integer(fn):
+                nstores += 1
+                run.subject(rule)
+                run.fail(rule, '%s|%s|truncated-quotient:%s' % (mi.name, name, q_), mi.relpath, c_.lineno,
+                         "%s accepts '%s' as an integer to within rounding (round(%s) compared with a tolerance) and then converts it with %s, which "
+                         "truncates: a quotient that comes out a rounding error below the integer (360 / 51.43 = 6.9998) loses one, so the value "
+                         "derived from it is not the one that was validated" % (name, q_, q_, norm(c_)))
             from .rules._purity import misaligned_key_value_pairs
             for z_, d_ in misaligned_key_value_pairs(fn):
                 nstores += 1
